@@ -156,6 +156,8 @@ class Interp:
                     if tag in ("format_record_key",) or d in self.key_fns:
                         return [(("ident", p, "record-key"),)]
                     return [(("child", p, tag),)]
+                if d in self.key_fns:
+                    return [(("unk", "record key from an expression that is not a field of the node"),)]
                 # printing a value that is not part of the node (e.g. a captured value)
                 return [(("child", ("<value>",), tag),)]
             if H.last(d) in ("make_indent",):
@@ -479,9 +481,13 @@ class Interp:
     def function(self, f):
         """alternatives returned by a whole function: params are roots"""
         env = {}
-        for p in f["params"]:
+        for p, t in zip(f["params"], f.get("inputs", [None] * len(f["params"]))):
             for bn in H.pat_binds(p):
-                env[bn] = Val("path", (bn,))
+                if t == "alloc::string::String":
+                    # an owned String parameter of a printer helper: a child that the caller has already rendered
+                    env[bn] = Val("str", [(("child", (bn,), "prerendered"),)])
+                else:
+                    env[bn] = Val("path", (bn,))
         self.returns = []
         tail = self.block_value(f["body"], env)
         return (self.returns + tail)[:MAX_PATHS]
